@@ -200,6 +200,7 @@ main()
         --biglen;
         if (ch == ':') break;
         if (len > 200000000) resources();
+        if (ch < '0' || ch > '9') badproto();
         len = 10 * len + (ch - '0');
       }
       if (len >= biglen) badproto();
